@@ -15,7 +15,12 @@ EXPLANATION = (
     "where a payload computed by integer arithmetic is wrapped into Variant::VInteger/VLong its "
     "interval (payloads of existing values assumed in range - the invariant, by induction) lies "
     "inside the type's range, i.e. a range check dominates the constructor.  (R4) the conversion table "
-    "Variant::cast x TypeQualifier yields the target tag or Overflow/TypeMismatch on every cell.")
+    "Variant::cast x TypeQualifier yields the target tag or Overflow/TypeMismatch on every cell.  (R5, R6) "
+    "allocation table and casting emitter (shared with C04).  (R7) every narrowing conversion of "
+    "QBNumberCast tests the range of the very value it converts (the rounded one), sibling rule over all "
+    "impls.  (R8) an argument passed by reference is accepted only with the parameter's exact type, for "
+    "each of the three by-reference forms (the write-back after the call stores without a cast; shared "
+    "with C12.R4).")
 NOT_DECIDED = [
     "rounding direction and the exact boundary constants of each conversion (value-level)",
     "C06.R3 covers payloads computed by integer arithmetic inside the constructing function; values "
@@ -367,6 +372,71 @@ def _arm_of(prog, fn, b):
     return "".join("[%s]" % v for _bb, v in names)
 
 
+def r7_guard_tests_converted_value(ctx, rule="C06.R7"):
+    """The narrowing conversions (QBNumberCast float -> integer, LONG -> INTEGER) convert a value
+    `v as iN` behind a range test.  The test must be on v itself - the value that is converted, i.e.
+    the rounded one: a test on the unrounded operand raises Overflow for 32767.25 (rounds into range)
+    or lets a value through that rounds out of range.  Sibling rule over all impls of the trait:
+    every comparison / RangeInclusive::contains that guards the narrowing cast has the cast's operand
+    (same origin) on its variable side."""
+    prog = ctx.prog
+    fns = [f for f in prog.fns.values() if f.crate == "rusty_linter" and f.name == "try_cast" and f.impl
+           and (f.impl.get("trait") or "").endswith("::QBNumberCast")]
+    n = 0
+    for f in sorted(fns, key=lambda f: f.path):
+        body = f.body
+        pv = mir.Prov(body)
+        casts = []
+        for b, blk in enumerate(body.blocks):
+            if body.is_cleanup(b):
+                continue
+            for st in blk["s"]:
+                r = st.get("r", {})
+                if st["k"] != "assign" or r.get("k") != "cast":
+                    continue
+                src = pv.of_operand(r["o"])
+                if r.get("ck") == "FloatToInt":
+                    casts.append((b, mir.strip_all(src)))
+                elif r.get("ck") == "IntToInt":
+                    so = mir.op_place(r["o"])
+                    sty = body.locals[so[0]]["ty"] if so is not None and not so[1] else ""
+                    dty = body.locals[st["p"][0]]["ty"]
+                    if (sty, dty) == ("i64", "i32"):
+                        casts.append((b, mir.strip_all(src)))
+        if not casts:
+            continue
+        guards = []
+        for b, blk in enumerate(body.blocks):
+            if body.is_cleanup(b):
+                continue
+            for st in blk["s"]:
+                r = st.get("r", {})
+                if st["k"] == "assign" and r.get("k") == "bin" and r["op"] in ("Ge", "Le", "Lt", "Gt"):
+                    sides = [mir.strip_all(pv.of_operand(x)) for x in (r["a"], r["b"])]
+                    var = [o for o in sides if not _const_origin(o)]
+                    guards.append((b, "comparison", var))
+            t = blk["t"]
+            if t["k"] == "call" and (t.get("cpath") or "").endswith("::contains") and "Range" in (t.get("cpath") or "") + (t.get("self_ty") or ""):
+                guards.append((b, "contains", [mir.strip_all(pv.of_operand(t["args"][-1]))]))
+        name = f.path.split("::", 1)[1]
+        for cb, co in casts:
+            n += 1
+            dom = [(b, k, var) for b, k, var in guards if body.dominates(b, cb)]
+            bad = [(k, [mir.short_origin(o) for o in var]) for b, k, var in dom if co not in var]
+            ok = bool(dom) and not bad
+            ctx.decide(ok, rule, "%s:%s" % (rule, name), f.loc,
+                       "%d range tests, all on the converted value %s" % (len(dom), mir.short_origin(co)),
+                       "%s converts %s but its range test is on %s: the guard and the conversion see different "
+                       "values (a value that rounds into range is refused with Overflow, or one that rounds out "
+                       "of range is let through)" % (name, mir.short_origin(co), bad if bad else "nothing"))
+    ctx.analysed_units(rule, narrowing_conversions=n)
+    ctx.require(rule, 5)
+
+
+def _const_origin(o):
+    return not mir.origin_mentions(o, lambda x: x[0] == "param")
+
+
 def run(ctx):
     common.install(ctx)
     T = ot.OpTables(ctx.prog)
@@ -377,3 +447,6 @@ def run(ctx):
     from . import c04
     c04.r4_allocation(ctx, "C06.R5")
     c04.r8_casting_emitter(ctx, "C06.R6")
+    r7_guard_tests_converted_value(ctx)
+    from . import c12
+    c12.r4_by_ref_exact(ctx, T, "C06.R8")
